@@ -49,12 +49,21 @@ def generate(rng, tier):
         sub = tg.tree(rng.choice([1, 2]))
         msgs = [treegen.gen_message(rng, sub, nunits=rng.choice([1, 2, 3, 4, 6, 8]), bad=0.02, args=False) for _ in range(rng.choice([1, 2, 3, 4]))]
         out.append(mk(treegen.case_line("v", sub, tg.scripts, msgs), tg.scripts))
+    import stress
+    out += [mk(l, treegen.parse_case(l)[2]) for l in stress.tree_stream(tier)]
+    # one unit with more data elements than an 8-bit (and, thorough, a 16-bit) counter holds; implementation + framing oracle
+    for n in ([255, 256, 257, 258, 513] if tier == "quick" else [255, 256, 257, 258, 513, 65535, 65536, 65537, 65538]):
+        sc = {1: ([], ["di%d" % (i % 10) for i in range(n)]), 2: ([], ["h" + hexs(b"TRAC")] + ["di%d" % (i % 10) for i in range(n)]), 3: ([], ["di7"])}
+        sub = [("L", b"TRAC", False, 1), ("L", b"HTRAC", False, 2), ("L", b"ONE", False, 3)]
+        c = mk(treegen.case_line("v", sub, sc, [b"TRAC?", b"ONE?;TRAC?;ONE?", b"HTRAC?"]), sc)
+        c["big"] = n > 2000
+        out.append(c)
     return out
 
 
 def harness_line(c): return c["line"]
 def case_of_line(l): return mk(l, treegen.parse_case(l)[2])
-def coq_term(c): return treegen.coq_term(c["line"])
+def coq_term(c): return '"SKIP"' if c.get("big") else treegen.coq_term(c["line"])
 
 
 def obs(s):
